@@ -1708,7 +1708,7 @@ impl Transaction {
                 let existing_fragments = maybe_existing_fragments?;
 
                 // Apply updates to existing fragments
-                let updated_frags: Vec<Fragment> = existing_fragments
+                let mut updated_frags: Vec<Fragment> = existing_fragments
                     .iter()
                     .filter_map(|f| {
                         if removed_fragment_ids.contains(&f.id) {
@@ -1721,6 +1721,60 @@ impl Transaction {
                         }
                     })
                     .collect();
+
+                // A rewrite of columns stamps the version it expected to become into the last-updated
+                // metadata of the rows it rewrites.  If other commits went first, those rows are really
+                // updated by the version that is built now: the rows whose stamp differs from the
+                // fragment's committed metadata are the rewritten ones.
+                if next_row_id.is_some() && matches!(update_mode, Some(UpdateMode::RewriteColumns)) {
+                    let new_version = current_manifest.map(|m| m.version + 1).unwrap_or(1);
+                    for frag in updated_frags
+                        .iter_mut()
+                        .filter(|f| updated_fragments.iter().any(|uf| uf.id == f.id))
+                    {
+                        let Some(meta) = frag.last_updated_at_version_meta.as_ref() else {
+                            continue;
+                        };
+                        let Some(committed) = existing_fragments
+                            .iter()
+                            .find(|f| f.id == frag.id)
+                            .and_then(|f| f.last_updated_at_version_meta.as_ref())
+                        else {
+                            continue;
+                        };
+                        let stamped = meta.load_sequence()?.versions().collect::<Vec<u64>>();
+                        let committed = committed.load_sequence()?.versions().collect::<Vec<u64>>();
+                        if stamped.len() != committed.len() {
+                            continue;
+                        }
+                        let versions = stamped
+                            .iter()
+                            .zip(committed.iter())
+                            .map(|(s, c)| if s != c { new_version } else { *s })
+                            .collect::<Vec<u64>>();
+                        if versions != stamped {
+                            let mut runs: Vec<lance_table::rowids::version::RowDatasetVersionRun> =
+                                Vec::new();
+                            let mut start = 0usize;
+                            for idx in 1..=versions.len() {
+                                if idx == versions.len() || versions[idx] != versions[start] {
+                                    runs.push(lance_table::rowids::version::RowDatasetVersionRun {
+                                        span: lance_table::rowids::segment::U64Segment::Range(
+                                            start as u64..idx as u64,
+                                        ),
+                                        version: versions[start],
+                                    });
+                                    start = idx;
+                                }
+                            }
+                            let sequence =
+                                lance_table::rowids::version::RowDatasetVersionSequence { runs };
+                            frag.last_updated_at_version_meta = Some(
+                                lance_table::format::RowDatasetVersionMeta::from_sequence(&sequence)?,
+                            );
+                        }
+                    }
+                }
 
                 // Update version metadata for updated fragments if stable row IDs are enabled
                 // Note: We don't update version metadata for fragments with deletion vectors
